@@ -118,6 +118,8 @@ class System(PrintObject):
     else: # Otherwise it's a component, so we want to constrain sequences
       for (glob_name, glob_wc), loc_seq in zip(list(inputs)+list(outputs), this_comp.input_seqs+this_comp.output_seqs):
         wc = (glob_wc != loc_seq.reversed)  # Are these signals complementary?
+        if loc_seq.reversed:  # Parity now accounts for the star on the port declaration; keep the defined sequence
+          loc_seq = loc_seq.wc
         if glob_name not in self.signals:
           self.signals[glob_name] = [(loc_seq, comp_name, wc)]
           assert not loc_seq.dummy, "In system %s: Signal %s represented by a dummy (length 0) sequence %s. Dummy signals are not allowed." % (self.name, glob_name, loc_seq.name)
